@@ -73,8 +73,16 @@ def gen_history(rng, maxlen=8):
     return h
 
 
-def render_tests(tests, late_import=False):
+def render_tests(tests, late_import=False, module_level=False):
     out = ["from inline_snapshot import snapshot, outsource, external", ""]
+    if module_level:
+        # the data is outsourced while the module is imported (module-level constants, as with parametrize values): at collection time
+        for t in tests:
+            out.append(f"D{t['uid']} = {data_expr(t['d'], t['suf'])}")
+        out.append("")
+        for t in tests:
+            out += [f"def test_{t['uid']}():", f"    assert D{t['uid']} == snapshot({t['arg']})", ""]
+        return "\n".join(out) + "\n"
     if late_import:
         # the file's own import of `external` stands behind ordinary statements
         out = ["import sys", "", "sys.path.append('.')", "from inline_snapshot import snapshot, outsource", "X = 1", "from inline_snapshot import external", ""]
@@ -91,13 +99,23 @@ ARG_RE = re.compile(r"snapshot\((.*)\)\s*$")
 def run_history(item):
     h, conf = item
     d = driver.scratch_dir()
+    scratch_root = d
     try:
         tool = []
         if conf.get("hash_length"):
             tool.append(f"hash-length = {conf['hash_length']}")
         if conf.get("storage_dir"):
             tool.append(f"storage-dir = {conf['storage_dir']!r}")
-        (d / "pyproject.toml").write_text("[tool.inline-snapshot]\n" + "\n".join(tool) + "\n")
+        if conf.get("workspace"):
+            # a workspace: the directory above the project has a pyproject.toml of its own with OTHER inline-snapshot settings, which must never apply to the
+            # project (pytest's rootdir is the project: its pyproject.toml has [tool.pytest.ini_options]); sessions start alternately in the workspace and in the project
+            (d / "pyproject.toml").write_text("[tool.inline-snapshot]\nstorage-dir = 'ws-store'\nhash-length = 5\n")
+            outer, d = d, d / "pkg"
+            d.mkdir()
+            (d / "pyproject.toml").write_text("[tool.pytest.ini_options]\nminversion = '6.0'\n\n[tool.inline-snapshot]\n" + "\n".join(tool) + "\n")
+        else:
+            outer = None
+            (d / "pyproject.toml").write_text("[tool.inline-snapshot]\n" + "\n".join(tool) + "\n")
         store_dir = (d / conf["storage_dir"] if conf.get("storage_dir") else d / ".inline-snapshot") / "external"
         tests, uid = [], 0
         obs, problems = [], []
@@ -118,14 +136,19 @@ def run_history(item):
             else:
                 for t in tests:
                     known[(sha(t["d"], t["suf"]), SUFFIXES[t["suf"]])] = (t["d"], t["suf"])
-                tfile.write_text(render_tests(tests, conf.get("late_import")))
+                tfile.write_text(render_tests(tests, conf.get("late_import"), conf.get("module_level")))
                 flags = [c for c in ("create", "fix", "trim") if step[1][c]]
                 cwd = tdir if (conf.get("subdir") and nsession % 2 == 1) else d
+                extra = []
+                if outer is not None and nsession % 2 == 0:
+                    cwd, extra = outer, ["pkg"]
                 nsession += 1
                 if step[1].get("review"):
-                    r = driver.run_pytest(cwd, ["--inline-snapshot=review"], stdin=(step[1]["review"] + "\n").encode() * 8)
+                    r = driver.run_pytest(cwd, ["--inline-snapshot=review"] + extra, stdin=(step[1]["review"] + "\n").encode() * 8)
                 else:
-                    r = driver.run_pytest(cwd, [f"--inline-snapshot={','.join(flags)}"] if flags else [])
+                    r = driver.run_pytest(cwd, ([f"--inline-snapshot={','.join(flags)}"] if flags else []) + extra)
+                if outer is not None and (outer / "ws-store").exists():
+                    problems.append("the storage-dir of the workspace's pyproject.toml was used for a project that has its own pyproject.toml")
                 if r.get("infra_error"):
                     return {"infra": True}
                 if r["rc"] not in (0, 1):
@@ -175,7 +198,7 @@ def run_history(item):
                 obs.append((files, refs))
         return {"obs": obs, "problems": problems, "final": tfile.read_text() if tfile.exists() else ""}
     finally:
-        shutil.rmtree(d, ignore_errors=True)
+        shutil.rmtree(scratch_root, ignore_errors=True)
 
 
 def g_hist(h):
@@ -270,11 +293,12 @@ def run(ctx: Ctx):
         "Model/Storage.v in Coq, and against the statement (persisted only with a reference, removed only by approved trim and unreferenced); "
         "prefix lookup on a real DiscStorage (missing / ambiguous / unique). non-trivial = history with >= 2 sessions")
     proof_step(ctx)
-    n = 28 if not ctx.thorough else 400
+    n = 36 if not ctx.thorough else 480
     items = []
     for i in range(n):
         conf = [{}, {"hash_length": 8}, {"hash_length": 64}, {"storage_dir": "snaps/store"}, {"late_import": True}, {"storage_dir": "snaps/store", "subdir": True},
-                {"late_import": True, "hash_length": 8}, {"subdir": True}][i % 8]
+                {"late_import": True, "hash_length": 8}, {"subdir": True}, {"module_level": True}, {"workspace": True}, {"module_level": True, "hash_length": 8},
+                {"workspace": True, "hash_length": 8}][i % 12]
         items.append((gen_history(ctx.rng), conf))
     outs = tmap(run_history, items)
     terms, idx = [], []
